@@ -1,0 +1,13 @@
+//go:build verif
+
+// Contracts for govc (see /verif/DESIGN.md). Comment-only file: no executable code.
+
+package icmodule
+
+//@ property C35
+// a rate is a numerator over 10000; MulBigInt truncates (operands are non-negative here)
+//@ func (r Rate) MulBigInt(v) (res)
+//@   trusted
+//@   pure
+//@   requires v != nil
+//@   ensures res != nil && fresh(res) && big(res) == tdiv(bigmul(big(v), r), 10000)
